@@ -286,19 +286,21 @@ def units(tier: str, seed: int) -> list[dict]:
 def run_unit(unit: dict, res: UnitResult) -> None:
     from .. import dcheck, dsched as D
     D.install(D.repo_file(*FILES))
+    D.DEFAULT_MAX_STEPS = 50000      # runs of this check take < 1000 steps (evidence: steps_per_run_below); no progress within 50000 is reported
     if not dcheck.check_install(res):
         return
     if unit["mode"] == "dfs":
         P = HAND[unit["hand"]]
-        dcheck.explore(res, ID, "hand%d" % unit["hand"], scenario, P, "dfs", bound=unit["bound"], max_runs=unit["max_runs"])
+        dcheck.explore(res, ID, "hand%d" % unit["hand"], scenario, P, "dfs", bound=unit["bound"], max_runs=unit["max_runs"], on_failed="violation")
         return
     for pi in range(*unit["progs"]):
         P = gen_program(case_rng(unit["seed"], ID, "prog", pi))
-        dcheck.explore(res, ID, "gen%d" % pi, scenario, P, "random", seed=unit["seed"], runs=unit["runs"])
-        dcheck.explore(res, ID, "gen%d" % pi, scenario, P, "pct", seed=unit["seed"], runs=unit["runs"] // 2)
+        dcheck.explore(res, ID, "gen%d" % pi, scenario, P, "random", seed=unit["seed"], runs=unit["runs"], on_failed="violation")
+        dcheck.explore(res, ID, "gen%d" % pi, scenario, P, "pct", seed=unit["seed"], runs=unit["runs"] // 2, on_failed="violation")
 
 
 def replay(rep: dict, res: UnitResult) -> None:
     from .. import dcheck, dsched as D
     D.install(D.repo_file(*FILES))
+    D.DEFAULT_MAX_STEPS = 50000      # runs of this check take < 1000 steps (evidence: steps_per_run_below); no progress within 50000 is reported
     dcheck.replay(res, ID, scenario, rep)
